@@ -18,7 +18,7 @@ RULE = ("a valid command line from C02's generator (1-4 fields over the CLI gram
 TRUSTED = C02.TRUSTED
 ASSUMPTIONS = ["user __post_init__ hooks are not exercised"]
 
-BAD = {"int": ["abc", "1.5", "", "0x10", "1 2"], "float": ["x", "1,5", "", "1e"], "bool": ["maybe", "2", ""], "enum": ["PURPLE", "red", ""]}
+BAD = {"int": ["abc", "1.5", "", "0x10", "1 2"], "float": ["x", "1,5", "", "1e"], "bool": ["maybe", "2", "", "5", "-2"], "enum": ["PURPLE", "red", ""]}
 
 
 def _mutations(rng, case):
@@ -39,14 +39,19 @@ def _mutations(rng, case):
         if k in ("list", "tupvar"):
             item, container = inner["item"], k
         elif k == "tupfix":
-            item, container = inner["items"][0], k
+            # the ill-typed token goes to a RANDOM position of a fixed tuple (a converter chosen by position must reject it
+            # there: seeded change C04-06 parsed every position of Tuple[int, bool] with the first item's converter)
+            cand = [j for j, x in enumerate(inner["items"]) if x["k"] in BAD]
+            pos = rng.choice(cand) if cand else 0
+            item, container = inner["items"][pos], k
         ik = item["k"]
         if ik in BAD:
             bad = rng.choice(BAD[ik])
             c = clone()
             g = c["fields"][i]
             if container == "tupfix":
-                toks = [bad] + ["1" if x["k"] in ("int", "float") else ("True" if x["k"] == "bool" else (x["members"][0] if x["k"] == "enum" else "s")) for x in inner["items"][1:]]
+                toks = ["1" if x["k"] in ("int", "float") else ("True" if x["k"] == "bool" else (x["members"][0] if x["k"] == "enum" else "s")) for x in inner["items"]]
+                toks[pos] = bad
             elif container:
                 toks = [bad]
             else:
